@@ -573,8 +573,15 @@ func (x *Exec) call(st *State, in ssa.Instruction, c *ssa.CallCommon) (Value, []
 func (x *Exec) callWith(st *State, in ssa.Instruction, c *ssa.CallCommon, fnv Value, args []Value) Value {
 	x.applyRely(st, in, c)
 	if x.fc != nil && len(x.fc.CallAsserts) > 0 {
-		site := fmt.Sprintf("%s#%d", x.calleeName(c), x.callOrd[in])
-		if cl, ok := x.fc.CallAsserts[site]; ok {
+		sites := []string{fmt.Sprintf("%s#%d", x.calleeName(c), x.callOrd[in])}
+		if q := x.qualSite[in]; q != "" {
+			sites = append(sites, q)
+		}
+		for _, site := range sites {
+			cl, ok := x.fc.CallAsserts[site]
+			if !ok {
+				continue
+			}
 			x.assertedSites[site] = true
 			// the actual arguments of the call are available as arg1, arg2, ... (receiver excluded for method and
 			// interface calls)
